@@ -172,6 +172,8 @@ fn parts_2_and_3(tier: Tier, seed: u64) -> Extra {
         let out = std::process::Command::new(&proc_bin)
             .args(["run", "C16", "--tier", tier.name(), "--seed", &seed.to_string()])
             .env("VERIF_EVIDENCE_FILE", &ev)
+            .env_remove("VERIF_CHILD")
+            .env_remove("VERIF_HEARTBEAT")
             .stderr(std::process::Stdio::null())
             .output();
         match out {
